@@ -121,7 +121,9 @@ func checkC14(e *Env) {
 	smp := newSamples(10)
 	outcomes := newCounter()
 
-	langVals := []int64{math.MinInt64, math.MinInt32, -(1 << 31) - 1, -10, -1, 0, 1, 2, 3, 4, 5, 6, 7, 8, 9, 10, 11, 255, 256, math.MaxInt32, 1 << 32, math.MaxInt64}
+	langVals := []int64{math.MinInt64, math.MinInt32, -(1 << 31) - 1, -10, -1, 0, 1, 2, 3, 4, 5, 6, 7, 8, 9, 10, 11, 255, 256, math.MaxInt32, 1 << 32, math.MaxInt64,
+		// values that become something else when narrowed to 8, 16 or 32 bits
+		127, 128, 129, 200, 254, 258, 32767, 32768, 40000, 65535, 65536, 65538, 1 << 31, 1<<31 + 2, 1<<32 + 2, -128, -129, -254, -256, -32768, -32769, -65534, -65536, -(1 << 32) + 2}
 	maxStr := e.pick(1<<20, 16<<20)
 
 	sizeClass := func(n int) string {
